@@ -1531,3 +1531,55 @@ package formula
 //@   panics never
 //@   ensures result1 == nil
 //@   ensures[C19] exists now time.Time :: result0 == tDate(tYear(now), tMonth(now), tDay(now), 0, 0, 0, 0, time.Local)
+
+// ---------------------------------------------------------------------------
+// Runner API (C20): a data map plus a separate key-value store
+// ---------------------------------------------------------------------------
+
+//@ func NewRunner
+//@   tags [C20,C03]
+//@   panics never
+//@   ensures[C20] result != nil && fresh(result) && result.this == nil && result.value != nil && fresh(result.value) && (forall k string :: !mapHas(result.value, k))
+
+//@ func (*Runner).SetThis
+//@   tags [C20,C03]
+//@   requires r != nil
+//@   assigns r.this
+//@   panics never
+//@   noalloc
+//@   ensures[C20] r.this == m
+
+//@ func (*Runner).SetThisValue
+//@   tags [C20,C07,C03]
+//@   requires r != nil
+//@   assigns r.this, all(r.this)
+//@   panics never
+//@   ensures[C20] r.this != nil && (old(r.this) == nil ? fresh(r.this) : r.this == old(r.this))
+//@   ensures[C20,C07] r.this[key] == value && mapHas(r.this, key) && (forall k string :: k != key ==> r.this[k] == old(r.this[k]) && mapHas(r.this, k) == old(mapHas(r.this, k)))
+
+//@ func (*Runner).Set
+//@   tags [C20,C03]
+//@   requires r != nil && r.value != nil
+//@   assigns all(r.value)
+//@   panics never
+//@   noalloc
+//@   ensures[C20] r.value[key] == value && (forall k string :: k != key ==> r.value[k] == old(r.value[k]))
+
+//@ func (*Runner).Get
+//@   tags [C20,C03]
+//@   requires r != nil
+//@   panics never
+//@   noalloc
+//@   ensures[C20] result == r.value[key]
+
+// Evaluation entry point: a value with a nil error, or nil with an error (C03); the
+// auxiliary store is neither read nor written (it is outside the frame) (C20).
+//@ func (*Runner).Resolve
+//@   tags [C03,C20,C04,C07]
+//@   requires rpre(r) && treeok(v)
+//@   assigns evalFrame(r)
+//@   panics never
+//@   ensures[C03] (result1 != nil ==> result0 == nil) && rpost(r)
+//@   ensures[C20,C07] r.world == step(old(r.world), v) && result1 == errOf(old(r.world), v)
+//@   ensures[C04] result1 == nil && num(valOf(old(r.world), v)) ==> result0 == box(d2f(nval(valOf(old(r.world), v))), float64)
+//@   ensures[C20] result1 == nil && !num(valOf(old(r.world), v)) ==> result0 == valOf(old(r.world), v)
